@@ -29,7 +29,6 @@ type desc struct {
 	Resp    bool     `json:"resp,omitempty"`
 	NoNorm  bool     `json:"nonorm,omitempty"`
 	NoDefCT bool     `json:"nodefct,omitempty"`
-	Strict  bool     `json:"strict,omitempty"`
 	Probes  []hlib.B `json:"probes"`
 	Ops     []opd    `json:"ops"`
 }
@@ -113,7 +112,7 @@ func pickValue(r *rand.Rand, canonName string) []byte {
 // genSeq draws one case.  k1 = true allows (with normalisation off) case variants of special names in mutating
 // operations: the known finding nonorm-special-casefold.
 func genSeq(r *rand.Rand, maxLen int, k1 bool) desc {
-	d := desc{Resp: r.Intn(2) == 0, NoNorm: r.Intn(2) == 0, NoDefCT: r.Intn(2) == 0, Strict: r.Intn(10) == 0}
+	d := desc{Resp: r.Intn(2) == 0, NoNorm: r.Intn(2) == 0, NoDefCT: r.Intn(2) == 0}
 	sp, other := names(d.Resp)
 	// the working key set of this case: all ordinary names, a few specials, sometimes a name of the other type
 	var keys []string
@@ -198,7 +197,7 @@ func bs(s string) hlib.B { return hlib.B(s) }
 
 func seq(resp, nonorm, nodef, strict bool, ops ...opd) desc {
 	r := rand.New(rand.NewSource(7))
-	return desc{Resp: resp, NoNorm: nonorm, NoDefCT: nodef, Strict: strict, Ops: ops, Probes: probesFor(r, resp, nonorm)}
+	return desc{Resp: resp, NoNorm: nonorm, NoDefCT: nodef, Ops: ops, Probes: probesFor(r, resp, nonorm)}
 }
 func set(k, v string) opd  { return opd{Op: "set", K: bs(k), V: bs(v), All: true} }
 func add(k, v string) opd  { return opd{Op: "add", K: bs(k), V: bs(v), All: true} }
@@ -233,11 +232,11 @@ func corpus() []desc {
 				c = append(c, seq(resp, nonorm, false, false, ops...))
 				c = append(c, seq(resp, nonorm, true, false, ops...))
 			}
-			// connection: close after another value (known finding connection-close-keeps-old-value), and the way out
+			// connection: close after another value (repaired defect: the earlier value stayed next to close), and back
 			c = append(c, seq(resp, nonorm, false, true, set("Connection", "keep-alive"), set("Connection", "close")))
 			c = append(c, seq(resp, nonorm, false, false, set("Connection", "keep-alive"), set("Connection", "close"), set("Connection", "upgrade"),
 				add("Connection", "close"), del("Connection"), add("Connection", "x")))
-			// PeekAll of names never set (known finding peekall-unset-special-empty-value): strict
+			// PeekAll of names never set (repaired defect: one empty value)
 			c = append(c, seq(resp, nonorm, false, true, add("Foo", "1")))
 			c = append(c, seq(resp, nonorm, true, true, opd{Op: "copy", All: true}, del("Content-Length")))
 			// trailer interplay: names listed in Trailer are left out of the serialised header
@@ -421,32 +420,13 @@ const rtHost = "rt.host"
 func run(d desc) hlib.Case {
 	h := fresh(d)
 	var steps []string
-	k1, k3 := false, false
-	connOther := false // an explicit non-"close" Connection value is stored
+	k1 := false
 	for i, o := range d.Ops {
 		var term string
 		h, term = apply(h, d, o)
 		steps = append(steps, hlib.Tuple(term, observe(h, d, o, i)))
-		if o.Op != "copy" {
-			if d.NoNorm && o.Op != "del" && isCaseVariantOfSpecial(d.Resp, string(o.K)) {
-				k1 = true
-			}
-			canonConn := string(fasthttp.AppendNormalizedHeaderKeyBytes(nil, o.K)) == "Connection"
-			if d.NoNorm {
-				canonConn = string(o.K) == "Connection"
-			}
-			if canonConn {
-				switch {
-				case o.Op == "del":
-					connOther = false
-				case string(o.V) == "close":
-					if connOther {
-						k3 = true
-					}
-				default:
-					connOther = true
-				}
-			}
+		if o.Op != "copy" && o.Op != "del" && d.NoNorm && isCaseVariantOfSpecial(d.Resp, string(o.K)) {
+			k1 = true
 		}
 	}
 	// write, read back
@@ -469,15 +449,10 @@ func run(d desc) hlib.Case {
 		reread = hlib.Some(l)
 	}
 	c := hlib.Case{Kind: "seq", Size: len(d.Ops)}
-	c.Coq = hlib.App("CHdr", hlib.Bool(d.Resp), hlib.Bool(d.NoNorm), hlib.Bool(d.NoDefCT), hlib.Bool(d.Strict),
+	c.Coq = hlib.App("CHdr", hlib.Bool(d.Resp), hlib.Bool(d.NoNorm), hlib.Bool(d.NoDefCT),
 		hlib.HexList(toBytes(d.Probes)), hlib.List(steps), finalAll, reread)
-	switch {
-	case k1:
+	if k1 {
 		c.Key = "nonorm-special-casefold"
-	case d.Strict && k3:
-		c.Key = "connection-close-keeps-old-value"
-	case d.Strict:
-		c.Key = "peekall-unset-special-empty-value"
 	}
 	typ := "req"
 	if d.Resp {
